@@ -1,6 +1,7 @@
 (* C14 driver for the extracted model.  One case per line (see harness/c14_rns.C for the result format):
      int <cksrc> <hist> n p1..pn r1..rn na a1..a_na k o1..ok   (o = the unrelated system used to warm caches)
      rns <hist> n p1..pn r1..rn na a1..a_na k o1..ok
+     bal n p1..pn r1..rn na a1..a_na                          (balanced residue domains; the answers do not depend on the history)
      fixed n p1..pn r1..rn
      cra <reduce|noreduce|fixed> M D A e
      lift <reduce|fixed> n p1..pn r1..rn
@@ -58,6 +59,16 @@ let () = run_lines (fun toks ->
        grp mix ^ "| " ^ string_of_z v ^ " | " ^ grp rr ^ "| " ^ grp back ^ "| " ^ grp ck ^ "| " ^ string_of_z v2
        ^ " | " ^ string_of_int (List.length p) ^ " " ^ grp p ^ "| " ^ grp p ^ "| " ^ grp ck ^ "| " ^ string_of_z v
   | _ -> "BAD-LINE")
+  | "bal" :: rest ->
+    let (p, r, rest) = parse_sys rest in
+    (match rest with
+     | nas :: rest ->
+       let al = List.map zs (take (int_of_string nas) rest) in
+       let (((mix, v), rrs), ck) = Model.bal_run p r al in
+       let rr = List.concat (List.map fst rrs) and back = List.map snd rrs in
+       grp mix ^ "| " ^ string_of_z v ^ " | " ^ grp rr ^ "| " ^ grp back ^ "| " ^ grp ck ^ "| " ^ string_of_z v
+       ^ " | " ^ string_of_int (List.length p) ^ " " ^ grp p ^ "| " ^ grp p ^ "| " ^ grp ck ^ "| " ^ string_of_z v
+     | _ -> "BAD-LINE")
   | "fixed" :: rest ->
     let (p, r, _) = parse_sys rest in
     let v = string_of_z (Model.fixed_RnsToRing p r) in v ^ " " ^ v
